@@ -388,7 +388,9 @@ func (vc *VC) instr(st *State, in ssa.Instruction) {
 		v := vc.get(st, x.X)
 		switch {
 		case v.K == KInt && (isPointerLike(x.X.Type()) || isOpaqueNamed(x.X.Type())):
-			vc.vals[x] = IntV(v.S, x.Type())
+			iv := IntV(v.S, x.Type())
+			iv.Dyn = x.X.Type()
+			vc.vals[x] = iv
 		default:
 			id := vc.fresh("iface", "Int")
 			st.assume(vc, Lt(id, "0")) // boxed scalars: non-nil, not an allocated object
